@@ -548,6 +548,51 @@ def meshio_rays(t):
     return {"points": np.array(m.points, dtype=np.float64), "cells": [(c[0], np.array(c[1])) for c in m.cells]}
 
 
+# --------------------------------------------------------------------------- resample / smooth (C16)
+@op
+def resample_smooth(t):
+    """apply resample / smooth on a real solver object; record geometry, the arguments that reach
+    SciPy, value statistics, and compare a following solve with a fresh object built from the
+    edited (grid, spacing, origin)."""
+    import fteikpy._base as B
+    nd = len(t["gridsize"])
+    cls = fteikpy.Eikonal2D if nd == 2 else fteikpy.Eikonal3D
+    e = cls(np.array(t["grid"], dtype=float), t["gridsize"], t["origin"])
+    out = {"steps": []}
+    seen = {}
+    real_gf = B.gaussian_filter
+
+    def spy(a, sigma, *args, **kw):
+        seen["sigma"] = np.array(sigma, dtype=float)
+        return real_gf(a, sigma, *args, **kw)
+    B.gaussian_filter = spy
+    try:
+        for op_ in t["ops"]:
+            before = {"shape": tuple(e.shape), "gridsize": tuple(e.gridsize), "origin": np.array(e.origin),
+                      "min": float(e.grid.min()), "max": float(e.grid.max()), "grid": np.array(e.grid)}
+            seen.clear()
+            if op_["kind"] == "resample":
+                e.resample(tuple(op_["shape"]), op_.get("method", "linear"))
+            else:
+                e.smooth(op_["sigma"])
+            after = {"shape": tuple(e.shape), "gridsize": tuple(e.gridsize), "origin": np.array(e.origin),
+                     "min": float(e.grid.min()), "max": float(e.grid.max()), "grid": np.array(e.grid),
+                     "sigma_cells": seen.get("sigma"), "finite": bool(np.isfinite(e.grid).all())}
+            out["steps"].append((op_, before, after))
+    finally:
+        B.gaussian_filter = real_gf
+    if t.get("solve") is not None:
+        fresh = cls(np.array(e.grid), tuple(e.gridsize), np.array(e.origin))
+        a = _call(lambda: e.solve(t["solve"], nsweep=2))
+        b = _call(lambda: fresh.solve(t["solve"], nsweep=2))
+        out["solve_same"] = a[0] == b[0] and (a[0] != "ok" or _same(a[1].grid, b[1].grid))
+        out["solve_status"] = a[0]
+        if a[0] == "ok":
+            out["solve_shape"] = tuple(a[1].shape)
+            out["solve_gridsize"] = tuple(a[1].gridsize)
+    return out
+
+
 def run_task(t):
     lim = float(t.get("timeout", 20.0))
     err = np.seterr(all="ignore")
